@@ -53,7 +53,7 @@ CONSTANTS
 
 RCodes == {"c1", "c2", "c4", "c5", "c6"}        \* codes statements raise
 NoiseCode == "cn"                               \* implicit_any: raised at many nodes of every realised line when
-                                                \* enabled; never enabled by a generated request (see ForcedOff)
+                                                \* enabled; switched off by -d whenever --enable-all is requested (RChooseAll)
 MetaCodes == {"unused_ignore", "bare_ignore"}
 AllEnCodes == RCodes \cup MetaCodes \cup {NoiseCode}
 RIgns == {"bare", "multi", "c1", "c2", "c3", "c4", "c5", "c6"}
